@@ -1785,7 +1785,9 @@ impl UntypedPattern {
             PatternEnum::NumUnsigned(n, suffix) => {
                 if let Some(ty) = &ty {
                     expect_num_type(ty, meta)?;
-                    PatternEnum::NumUnsigned(*n, *suffix)
+                    let n = *n as i128;
+                    expect_num_pattern_in_range(ty, Type::Unsigned(*suffix), n, n, meta)?;
+                    PatternEnum::NumUnsigned(n as u64, *suffix)
                 } else {
                     return Err(vec![None]);
                 }
@@ -1793,7 +1795,9 @@ impl UntypedPattern {
             PatternEnum::NumSigned(n, suffix) => {
                 if let Some(ty) = &ty {
                     expect_signed_num_type(ty, meta)?;
-                    PatternEnum::NumSigned(*n, *suffix)
+                    let n = *n as i128;
+                    expect_num_pattern_in_range(ty, Type::Signed(*suffix), n, n, meta)?;
+                    PatternEnum::NumSigned(n as i64, *suffix)
                 } else {
                     return Err(vec![None]);
                 }
@@ -1801,6 +1805,8 @@ impl UntypedPattern {
             PatternEnum::UnsignedInclusiveRange(from, to, suffix) => {
                 if let Some(ty) = &ty {
                     expect_num_type(ty, meta)?;
+                    let (min, max) = (*from as i128, *to as i128);
+                    expect_num_pattern_in_range(ty, Type::Unsigned(*suffix), min, max, meta)?;
                     PatternEnum::UnsignedInclusiveRange(*from, *to, *suffix)
                 } else {
                     return Err(vec![None]);
@@ -1809,6 +1815,8 @@ impl UntypedPattern {
             PatternEnum::SignedInclusiveRange(from, to, suffix) => {
                 if let Some(ty) = &ty {
                     expect_signed_num_type(ty, meta)?;
+                    let (min, max) = (*from as i128, *to as i128);
+                    expect_num_pattern_in_range(ty, Type::Signed(*suffix), min, max, meta)?;
                     PatternEnum::SignedInclusiveRange(*from, *to, *suffix)
                 } else {
                     return Err(vec![None]);
@@ -2496,6 +2504,41 @@ fn expect_num_type(ty: &Type, meta: MetaInfo) -> Result<(), TypeErrors> {
             TypeErrorEnum::ExpectedNumberType(ty.clone()),
             meta,
         ))]),
+    }
+}
+
+/// A number (or number range) pattern must have the type of the matched value (or no type suffix)
+/// and must fit into that type, otherwise it would silently be truncated by the compiler.
+fn expect_num_pattern_in_range(
+    ty: &Type,
+    pattern_ty: Type,
+    min: i128,
+    max: i128,
+    meta: MetaInfo,
+) -> Result<(), TypeErrors> {
+    let (ty_min, ty_max) = match ty {
+        Type::Unsigned(n) => match n.max() {
+            Some(max) => (0, max as i128),
+            None => return Ok(()),
+        },
+        Type::Signed(n) => match (n.min(), n.max()) {
+            (Some(min), Some(max)) => (min as i128, max as i128),
+            _ => return Ok(()),
+        },
+        _ => return Ok(()),
+    };
+    let is_unspecified = matches!(
+        pattern_ty,
+        Type::Unsigned(UnsignedNumType::Unspecified) | Type::Signed(SignedNumType::Unspecified)
+    );
+    if (is_unspecified || &pattern_ty == ty) && ty_min <= min && max <= ty_max {
+        Ok(())
+    } else {
+        let e = TypeErrorEnum::UnexpectedType {
+            expected: ty.clone(),
+            actual: pattern_ty,
+        };
+        Err(vec![Some(TypeError::new(e, meta))])
     }
 }
 
